@@ -68,11 +68,13 @@ def main(ck):
                     bad.append("%s:%d `%s` in fn %s%s" % (f, line, tok, fn, " (takes an rng)" if takes else ""))
             clone_bad = ["%s.%s: %s [%s]" % (r["conversion"], r["field"], r["kind"], r["source"]) for r in rep.get("fields", [])
                          if r["conversion"].endswith(".clone") and r["kind"] != "copied"]
-            ck.oblige("ambient_clean / clone_eq re-proved against the regenerated files", False,
+            print("regenerated files: proofs fail; disallowed ambient uses: %s; clone fields not copied: %s" % ("; ".join(bad) or "none", "; ".join(clone_bad) or "none"))
+            ck.oblige("ambient_clean / clone_eq re-proved against the regenerated files -- offending: " + ("; ".join((bad + clone_bad)[:3]) or "see lake output"), False,
                       "DISALLOWED AMBIENT USES: " + ("; ".join(bad) or "none") + " || CLONE FIELDS NOT COPIED: " + ("; ".join(clone_bad) or "none"))
             for t in THEOREMS:
                 ck.oblige("theorem Qmc.C13." + t, False, "QmcProps.C13 does not build against the regenerated files")
     else:
+        print("regenerated files: " + msg)
         for t in THEOREMS:
             ck.oblige("theorem Qmc.C13." + t, False, "Generated files could not be regenerated (unknown source shape)")
     if ck.cargo_build(BINS):
